@@ -112,7 +112,7 @@ func c02(c *ctx) {
 			case 1:
 				pls[i] = []byte{byte(i + 1), byte(0xa0 + i)}
 			default:
-				pls[i] = r.bytes(1 + r.intn(9))
+				pls[i] = r.bytes(r.intn(10)) // 0..9 bytes: an empty data frame is a frame too
 			}
 		}
 		return pls
@@ -223,5 +223,6 @@ func c02(c *ctx) {
 		o.T("sb.state", sb.State())
 		o.stat("malformed_scripts", 1)
 	}
+	c02wireAll(c)
 	o.sample("exhaustive: order=[2 0 1] closing=1 reads interleaved; sb.write seq=2 ... -> ok; sb.write seq=0 -> ok; sb.write seq=1 closing=1 -> close")
 }
